@@ -180,9 +180,20 @@ func (w *zzC08World) step() {
 		w.tx("MarkUsed", func(ns walletdb.ReadWriteBucket) error { return sm.MarkUsed(ns, a) })
 	case 4:
 		h := w.height + 1
+		if w.height >= 1 && verifrt.Choice(2, "sync-direction") == 1 {
+			// backwards, to the block already recorded below the tip (what
+			// a disconnected block or the start-up rollback does)
+			h = w.height - 1
+			verifrt.Reach("synced-backwards")
+		}
 		bs := &BlockStamp{Height: h, Timestamp: time.Unix(1600000000+int64(h)*600, 0)}
 		bs.Hash[0] = 0xb5
 		bs.Hash[1] = byte(h)
+		if h == 0 {
+			// the sync point a manager is created with: the genesis block
+			p := w.mgr.ChainParams()
+			*bs = BlockStamp{Hash: *p.GenesisHash, Timestamp: p.GenesisBlock.Header.Timestamp}
+		}
 		if w.tx("SetSyncedTo", func(ns walletdb.ReadWriteBucket) error { return w.mgr.SetSyncedTo(ns, bs) }) {
 			w.height = h
 		}
@@ -284,7 +295,9 @@ func (w *zzC08World) compare() bool {
 		for h := w.height; h > 0 && h > w.height-3; h-- {
 			rh, rerr := w.mgr.BlockHash(ns, h)
 			fh, ferr := fresh.BlockHash(ns, h)
-			eq(rerr == nil && ferr == nil && *rh == *fh, "block-hash")
+			// the tip's hash is recorded; below it both managers answer
+			// alike (a jump ahead leaves no hash for the skipped heights)
+			eq((h < w.height || (rerr == nil && ferr == nil)) && (rerr == nil) == (ferr == nil) && (rerr != nil || *rh == *fh), "block-hash")
 		}
 		// nothing that was issued is forgotten, and both agree on it
 		for _, ia := range w.issued {
